@@ -282,7 +282,10 @@ impl Interface {
                 timeout,
                 group,
             } if self.inner.now >= timeout => {
-                if let Some(pkt) = self.inner.igmp_report_packet(version, group) {
+                if !self.inner.has_multicast_group(group) {
+                    // The group was left after the query arrived: nothing to report.
+                    self.inner.multicast.igmp_report_state = IgmpReportState::Inactive;
+                } else if let Some(pkt) = self.inner.igmp_report_packet(version, group) {
                     // Send initial membership report
                     if let Some(tx_token) = device.transmit(self.inner.now) {
                         // NOTE(unwrap): packet destination is multicast, which is always routable and doesn't require neighbor discovery.
@@ -304,8 +307,9 @@ impl Interface {
                     .multicast
                     .groups
                     .iter()
-                    .filter_map(|(addr, _)| match addr {
-                        IpAddress::Ipv4(addr) => Some(*addr),
+                    .filter_map(|(addr, state)| match addr {
+                        // Groups we are leaving are no longer reported.
+                        IpAddress::Ipv4(addr) if *state != GroupState::Leaving => Some(*addr),
                         #[allow(unreachable_patterns)]
                         _ => None,
                     })
@@ -352,11 +356,14 @@ impl Interface {
                     .multicast
                     .groups
                     .iter()
-                    .filter_map(|(addr, _)| match addr {
-                        IpAddress::Ipv6(addr) => Some(MldAddressRecordRepr::new(
-                            MldRecordType::ModeIsExclude,
-                            *addr,
-                        )),
+                    .filter_map(|(addr, state)| match addr {
+                        // Groups we are leaving are no longer reported.
+                        IpAddress::Ipv6(addr) if *state != GroupState::Leaving => {
+                            Some(MldAddressRecordRepr::new(
+                                MldRecordType::ModeIsExclude,
+                                *addr,
+                            ))
+                        }
                         #[allow(unreachable_patterns)]
                         _ => None,
                     })
@@ -372,7 +379,9 @@ impl Interface {
             }
             MldReportState::ToSpecificQuery { group, timeout } if self.inner.now >= timeout => {
                 let record = MldAddressRecordRepr::new(MldRecordType::ModeIsExclude, group);
-                if let Some(pkt) = self.inner.mldv2_report_packet(&[record])
+                // Nothing to report if the group was left after the query arrived.
+                if self.inner.has_multicast_group(group)
+                    && let Some(pkt) = self.inner.mldv2_report_packet(&[record])
                     && let Some(tx_token) = device.transmit(self.inner.now)
                 {
                     // NOTE(unwrap): packet destination is multicast, which is always routable and doesn't require neighbor discovery.
